@@ -216,12 +216,12 @@ NOT_APPLICABLE = {}
 
 # clauses added after the first version of each check (seeded rounds c and d, refactoring probes); appended to the level text
 EXTRA = {
-    "C14": "Added: C03-EFF runs here too: the cache container and its fields are not written from the request path outside the cache's own locked methods. Has() reads the key through Get or moves the element it found to the recent end itself (C14-ORIENT).",
+    "C14": "Added: C03-EFF runs here too: the cache container and its fields are not written from the request path outside the cache's own locked methods. Has() reads the key through Get or moves the element it found to the recent end itself (C14-ORIENT). Every store to the capacity field stores a parameter unchanged, or the constant 0 (C14-BOUND): a clamp to 1 is reported.",
     "C19": "Added: C19-ARMS is decided on paths (from 'accepted type == MIME constant' every path ends the negotiation before the next type or the not-supported error); a direct io.Reader.Read loop writes the bytes returned before it leaves on the error (C19-STREAM, with a fixture analysed in every run). Renderers do not remove the Content-Type header either (Header.Del / delete). The list of accepted types compared in render.Auto comes from the library parser, or every element the module's own parser collects is a strings.TrimSpace result. The text helpers (Text, HTML, HTMLString, JSONBytes) hand their own argument, converted at most, to Blob. C19-LENGTH: a Content-Length stored by the response helpers (root package, pkg/render) derives from len() of the data in hand and nothing else (zero instances; a fixture with Size() and one with len(data) is analysed in every run).",
     "C11": "Added: Every result of a registration-only string pre-normaliser (simpleFmtPath) is a constant or derives from the white-space-trimmed parameter (C11-PRENORM), so formatPath absorbs it. formatPath removes ALL trailing slashes (TrimRight over a cut set with '/', or a loop) — the structural core of its idempotence (C11-TRAIL). C01-REPR and C01-SPACE run here too: the literal start string and the first-segment key are cut from the unescaped path. formatPath itself derives every result from the trimmed parameter; QuickMatch hands its path parameter (or the intercept path) to formatPath as given.",
     "C09": "Added: The panic hook is the only call in the recovering closure that can run user code (no OnError / handler after it). Every path on which recover() returned a value calls the hook before the closure returns.",
     "C16": "Added: All member paths other than the bare '/' agree on the trailing slash, so the table is the same set of rows with StrictLastSlash (C16-SLASH). The Uses() hook is looked up on the same reflect.Value as the action methods. The value whose Kind() is compared with Struct is exactly one Elem() away from the controller value.",
-    "C10": "Added: C10-FRESH: the allowed-methods list is fresh per request. C08-FACADE runs here too: every store to Context.Resp is that context's own writer, and a whole-struct copy of a Context re-points Resp on every path. The pool constructor does not hand out copies of a prototype that holds allocated memory (shared backing arrays). C10-PARAMS: the parameters the matcher hands to a request never come from a package-level variable. C10-NOGO: no go statement in the module hands a value that reaches the live *Context to the new goroutine (only a Context.Copy() result may go); zero instances, a fixture with a leaking and a copying goroutine is analysed in every run.",
+    "C10": "Added: C10-FRESH: the allowed-methods list is fresh per request. C08-FACADE runs here too: every store to Context.Resp is that context's own writer, and a whole-struct copy of a Context re-points Resp on every path. The pool constructor does not hand out copies of a prototype that holds allocated memory (shared backing arrays). C10-PARAMS: the parameters the matcher hands to a request never come from a package-level variable. C10-NOGO: no go statement in the module hands a value that reaches the live *Context to the new goroutine (only a Context.Copy() result may go); zero instances, a fixture with a leaking and a copying goroutine is analysed in every run. A field that Reset re-slices to length 0 is never compared with nil in the module (its nil-ness survives a request).",
     "C06": "Added: A stage that a path of QuickMatch does not run, and that no earlier success made moot, must have been switched off by its own option on that path (a stage may not be skipped because another option is on).",
     "C05": "Added: The only dynamic func(*Context) calls in the request core (dispatcher, its callers, what they reach by static calls) are the executor loop's and the OnError/OnPanic hooks: no handler is started outside the cursor-guarded loop (C05-OUTSIDE).",
     "C01": "Added: a miss in one lookup tier always goes on to a later tier (no return without this tier's own hit); the literal-prefix "
@@ -234,14 +234,14 @@ EXTRA = {
            "the router's or a route's own lists (group/global middleware cannot end up inside the route's middleware); the cached copy of a "
            "route carries its middleware list (C07-COPY). Every normal path through the dispatcher installs a chain and starts it with Next(): no request is answered by the dispatcher itself before the global middleware ran. Lists built up over the iterations of a loop are not evaluated by the sequence engine (unknown fails): a conditional append in a loop cannot pass as 'existing list'.",
     "C07": "Added: the cache may be filled through the wrapper or in line; every successful regexp match reaches a fill or a configuration-only "
-           "'caching off' decision before it returns; a field-wise cached copy must copy every observable field. C02-STATIC runs here too: no route reaches the static table through another door than registration's variable-free test (a dynamic route promoted there by the caching code would be answered without its parameters from the second request on).",
+           "'caching off' decision before it returns; a field-wise cached copy must copy every observable field. C02-STATIC runs here too: no route reaches the static table through another door than registration's variable-free test (a dynamic route promoted there by the caching code would be answered without its parameters from the second request on). C07-OWN: every store into Router.cachedRoutes stores nil or a container allocated by that activation (no captured variable, parameter or loaded value): two routers never share a cache, whose METHOD+path key identifies a route only within one route table.",
     "C08": "Added: every path from the underlying Write to a return adds the accepted byte count to length. Every normal path of the context's raw write helpers reaches c.Resp.Write (an empty first write still commits); wherever a new underlying writer is installed, length = noWritten is stored on every path; a Context copied as a whole re-points Resp at its own writer.",
     "C12": "Added: every Route field that registration derives from route.path is derived after the group prefix was applied and the path "
            "normalised. Loop-built middleware lists are not accepted by the sequence engine (a filter / de-duplication in a loop is reported). C11-SAME runs here too: with a prefix in force every alternative of the stored path is formatPath(prefix + path).",
     "C13": "Added: the default method replaces only an absent method list; isFixedPath's own definition; checkAndParseOptional evaluated "
            "abstractly on bracket profiles (a ']' outside the trailing run, or an unclosed '[', always panics; well-formed profiles return). No recover() in the root package outside the request frame (a registration helper must not swallow the checks' panics).",
     "C15": "Added: the URL builder keeps no state derived from its own settings that can go stale (or only as a keyed memo); ToURL's template is "
-           "a pattern field and literal-space; the dispatcher matches on the request's own (decoded or escaped) path. The text stored into url.URL.Path never derives from an escaping function (PathEscape, QueryEscape, EscapedPath, ...): net/url escapes that field itself (C15-ESCAPE). Builder and registration both cut their template into placeholders with the package's varRegex (C15-SCAN). The URL builders never update or delete from a map that can be the caller's argument map (C15-ARGS). No store into url.URL.Path derives from a load of url.URL.Path (the substituted path is not post-processed). QuickMatch does not rewrite (cut) the request path before normalising it. C15-ARGS also demands that every turn of a range over the caller's argument map stores the entry's value under its key (builder map or url.Values.Add/Set) on every path to the next turn: no filter drops an argument.",
+           "a pattern field and literal-space; the dispatcher matches on the request's own (decoded or escaped) path. The text stored into url.URL.Path never derives from an escaping function (PathEscape, QueryEscape, EscapedPath, ...): net/url escapes that field itself (C15-ESCAPE). Builder and registration both cut their template into placeholders with the package's varRegex (C15-SCAN). The URL builders never update or delete from a map that can be the caller's argument map (C15-ARGS). No store into url.URL.Path derives from a load of url.URL.Path (the substituted path is not post-processed). QuickMatch does not rewrite (cut) the request path before normalising it. C15-ARGS also demands that every turn of a range over the caller's argument map stores the entry's value under its key (builder map or url.Values.Add/Set) on every path to the next turn: no filter drops an argument. C15-SCAN also evaluates the constant placeholder pattern on fourteen witness texts of the documented grammar: each brace group without '/' must be found whole as one placeholder (a name class such as \\w+ is reported).",
     "C17": "Added: where the route pattern carries the extension filter, the handler hands the matched {file} variable to the file server. A registrar that takes an extension list and does not put it into the pattern is reported (handler-side string tests are not decided).",
     "C18": "Added: an error found non-nil is returned (or wrapped) on every path, never followed by another result; the decoder receives the "
            "caller's values unmodified. In the package's own validator a nil result lies only on paths where the validation library's Validate() on that value was seen true, or is the library's own verdict.",
